@@ -411,7 +411,10 @@ Inductive method :=
 | MEigKron (constf : bool) (sizes : seq nat)   (* the same, Kronecker-structured diagonal (constant / general factors) *)
 | MBlocks (k : nat) (m : method)   (* Block*._solve: base_linear_op._solve on the blocked rhs *)
 | MPermT                           (* permutation: inverse() @ rhs *)
-| MSumKron (sizes : seq nat).      (* SumKroneckerLinearOperator._solve: inverse roots of the C_i + eigen-shift of the inner matrix *)
+| MSumKron (exact : bool) (sizes : seq nat).
+                                   (* SumKroneckerLinearOperator._solve: inverse roots of the C_i + eigen-shift of the inner matrix;
+                                      exact = every root is a Cholesky root (_choose_root_method: factor size <= max_cholesky_size),
+                                      otherwise some root is a Lanczos approximation (no value model) *)
 
 Section Select.
 Variable s : settings.
@@ -454,7 +457,9 @@ Fixpoint route (c : cls) : method * method :=
   | CBlockInterleaved k b => let cs := MBlocks k (route b).2 in (solve_fn c cs cs, cs)
   | CBatchRepeat b => let cs := MCG (default_preconditioner s) 0 in (solve_fn c cs cs, cs)
   | CPermutation n => let cs := MPermT in (solve_fn c cs cs, cs)
-  | CSumKron fs => let cs := MSumKron (map csize fs) in (solve_fn c cs cs, cs)
+  | CSumKron fs =>
+      let exact := all (fun f => if choose_root_method s (csize f) is RootCholesky then true else csize f == 1) fs in
+      let cs := MSumKron exact (map csize fs) in (solve_fn c cs cs, cs)
   end.
 
 Definition select_solve (c : cls) : method := (route c).1.
@@ -502,7 +507,7 @@ Fixpoint method_events (s : settings) (obs rbs bb : seq nat) (cc : nat) (c : cls
          end) ms fs
   | MEigShift sizes, _ => map (fun n => EEig (obs ++ [:: n; n])) sizes
   | MEigKron _ sizes, _ => map (fun n => EEig (obs ++ [:: n; n])) sizes      (* one symeig per factor *)
-  | MSumKron sizes, _ =>
+  | MSumKron _ sizes, _ =>
       (* root_inv_decomposition() of every C_i with the method _choose_root_method picks (Cholesky below max_cholesky_size:
          one factorisation event, none for size 1; the Lanczos branch is the listed defect and has no event model), then
          the eigen-shift of the inner Kronecker matrix: one symeig per factor *)
@@ -688,6 +693,7 @@ Fixpoint run_plan (s : settings) (up : bool) (o : opd) (p : cplan) (X : cols) {s
 Fixpoint direct (m : method) : bool :=
   match m with
   | MCG _ _ => false
+  | MSumKron exact _ => exact
   | MTriViaBase m' | MBlocks _ m' => direct m'
   | MKronFactors ms => all direct ms
   | _ => true
@@ -722,7 +728,7 @@ Fixpoint run_method (s : settings) (o : opd) (m : method) (X : cols) {struct o} 
       let mm := if bs is b :: _ then osize b else 0 in
       omap (block_solve A true k mm (map (fun b v => ohead (run_method s b m' [:: v])) bs)) X
   | MPermT, DPerm p => omap (perm_solve A p) X
-  | MSumKron _, DSumKron _ fs2 eig =>
+  | MSumKron _ _, DSumKron _ fs2 eig =>
       let Rs := map (fun f => (osize f, inv_root s (osize f) (dense_of f))) fs2 in
       if all (fun x => isSome x.2) Rs then
         Some (sumkron_apply A (map (fun x => (x.1, if x.2 is Some R then R else [::])) Rs) eig (size X) X)
@@ -772,7 +778,7 @@ End Alg.
    so their answers are only as accurate as that dtype (Check.v widens the value tolerance accordingly) *)
 Fixpoint uses_symeig (m : method) : bool :=
   match m with
-  | MEigShift _ | MEigKron _ _ | MSumKron _ => true
+  | MEigShift _ | MEigKron _ _ | MSumKron _ _ => true
   | MTriViaBase m' | MBlocks _ m' => uses_symeig m'
   | MKronFactors ms => has uses_symeig ms
   | _ => false
